@@ -170,11 +170,23 @@ func runC12(ctx *runCtx) {
 	ports := []string{"", "", ":8080", ":443", ":80"}
 	tails := []string{"", "/", "/example.com", "?h=example.com", "#example.com", "/x?y#z", "/@example.com", "?@example.com"}
 	patsets := [][]string{nil, {"example.com"}, {"*.example.com"}, {"*"}, {"evil.com"}, {"EXAMPLE.*"}, {"*.com"}, {"exampl?.com"}, {"example.com:*"}, {"*example.com"}, {"foo", "*.evil.com"}}
+	// every host also as a literal pattern (and with its first / last character replaced by a wildcard), plus hosts that are
+	// a pattern with leading or trailing characters removed: a matcher that mangles the ends of a pattern (trims a
+	// character set, drops a prefix, appends a wildcard) authorises the neighbours and refuses the owner
+	hosts = append(hosts, "shop.example.com", "op.example.com", "top.example.com", "partner.org", "artner.org", "partner.or", "https.example.org",
+		".example.org", "example.org", "s.evil.com", "static.example.com", "atic.example.com", "tps.example.net", "example.net")
+	for _, h := range append([]string{}, hosts...) {
+		if strings.ContainsAny(h, "[]ſK") {
+			continue
+		}
+		patsets = append(patsets, []string{h}, []string{"*" + h[1:]}, []string{h[:len(h)-1] + "?"})
+	}
+	patsets = append(patsets, []string{"s*evil.com"}, []string{"h*.example.org"}, []string{"t?p.example.com"}, []string{"/example.com"}, []string{":example.com"})
 	var cases []*c12Case
 	add := func(c *c12Case) { cases = append(cases, c) }
-	n := 4000
+	n := 9000
 	if ctx.thorough() {
-		n = 80000
+		n = 120000
 	}
 	for i := 0; i < n; i++ {
 		h := hosts[rng.Intn(len(hosts))]
